@@ -572,6 +572,11 @@ func (p *Proc) Reconcile(name string) (ctrl.Result, error) {
 	return p.BR.Reconcile(context.Background(), ctrl.Request{NamespacedName: client.ObjectKey{Namespace: NS, Name: name}})
 }
 
+// ReconcileNS reconciles a BindRequest of any namespace (end-to-end runs use the scheduler's namespace).
+func (p *Proc) ReconcileNS(ns, name string) (ctrl.Result, error) {
+	return p.BR.Reconcile(context.Background(), ctrl.Request{NamespacedName: client.ObjectKey{Namespace: ns, Name: name}})
+}
+
 // SeedNames makes the random suffixes of reservation pods reproducible.
 func SeedNames(seed int64) { utilrand.Seed(seed) }
 
